@@ -8,5 +8,5 @@ package parse
 //@   ensures [C09] total: true
 //@   ensures [C10,C07] absent: sec == nil ==> result0 == nil && result1 == nil
 //@   ensures [C10,C07] bounds: sec != nil ==> ((result1 == nil) == (-9007199254740991 <= *sec && *sec <= 9007199254740991))
-//@   ensures [C10,C07] value: sec != nil && result1 == nil ==> result0 != nil && inst(*result0) == *sec * 1000000000
+//@   ensures [C10,C07] value: sec != nil && result1 == nil ==> result0 != nil && inst(*result0) == *sec * 1000000000 && unixOf(*result0) == *sec
 //@   assigns [C20] nothing
